@@ -6,7 +6,7 @@ use std::fs::create_dir_all;
 use std::sync::Arc;
 use std::thread;
 use std::thread::JoinHandle;
-use std::time::{Duration, UNIX_EPOCH};
+use std::time::{Duration, SystemTime, UNIX_EPOCH};
 
 use serde::{Deserialize, Serialize};
 
@@ -45,6 +45,16 @@ const FLUSH_INTERVAL: Duration = Duration::from_millis(1000);
 /// Most files don't change very frequently so their hashes don't change.
 /// Usually it is a lot faster to retrieve the hash from an embedded database that to compute
 /// them from file data.
+/// Returns the number of milliseconds since the Unix epoch.
+/// Timestamps before the epoch get distinct values as well (they wrap around),
+/// so that a change of such a timestamp is not missed.
+fn timestamp_ms(timestamp: SystemTime) -> u64 {
+    match timestamp.duration_since(UNIX_EPOCH) {
+        Ok(since_epoch) => since_epoch.as_millis() as u64,
+        Err(e) => (e.duration().as_millis() as u64).wrapping_neg(),
+    }
+}
+
 pub struct HashCache {
     cache: Arc<InnerCache>,
     flusher: HashCacheFlusher,
@@ -97,12 +107,10 @@ impl HashCache {
         hash: FileHash,
     ) -> Result<(), Error> {
         let value = CachedFileInfo {
-            modified_timestamp_ms: file
-                .modified()
-                .map_err(|e| format!("Unable to get file modification timestamp: {e}"))?
-                .duration_since(UNIX_EPOCH)
-                .unwrap_or(Duration::ZERO)
-                .as_millis() as u64,
+            modified_timestamp_ms: timestamp_ms(
+                file.modified()
+                    .map_err(|e| format!("Unable to get file modification timestamp: {e}"))?,
+            ),
             file_len: file.len(),
             data_len,
             hash,
@@ -138,12 +146,11 @@ impl HashCache {
             None => return Ok(None), // not found in cache
         };
 
-        let modified = metadata
-            .modified()
-            .map_err(|e| format!("Unable to get file modification timestamp: {e}"))?
-            .duration_since(UNIX_EPOCH)
-            .unwrap_or(Duration::ZERO)
-            .as_millis() as u64;
+        let modified = timestamp_ms(
+            metadata
+                .modified()
+                .map_err(|e| format!("Unable to get file modification timestamp: {e}"))?,
+        );
 
         if value.modified_timestamp_ms != modified || value.file_len != metadata.len() {
             Ok(None) // found in cache, but the file has changed since it was cached
